@@ -5,6 +5,9 @@ Engine A (DESIGN.md section 5, C27): through the guarded `verif_hooks::mangle::m
 descriptors with SYMBOLIC part texts (length 1-3 over {a f 1 2 - _}, numeric indices over digits) are mangled by
 the real code (real String, usize::to_string, starts_with). The harness asserts that different (kind, text) lists
 give different strings and that no result equals `main`. FileName::get_components (cwd, real paths) is outside.
+The location -> parts mapping (create_mangled_for_*) is exercised on two closed programs that put every kind of entity
+next to its siblings (generic instantiations, anonymous / bound / nested lambdas, comptime blocks and their data): they
+must be built, with pairwise different function symbols, and compute the expected result (closed terms).
 """
 import itertools
 import random
@@ -90,7 +93,69 @@ def cause_of(a, b):
     return 'digit-leading part text vs the same text prefixed with the lowercase kind letter' if ok and diffs else 'other'
 
 
+ENTITY_PROGRAMS = [
+    # (name, source, exit status = main's result & 0xff, entities that must get their own symbol)
+    ('entities_a', '''idg :: (comptime T: type, x: T) -> T { x }
+apply :: (f: (y: i64) -> i64, v: i64) -> i64 { f(v) }
+named :: () -> i64 { comptime { 5 + 6 } }
+bound :: (x: i64) -> i64 { x + comptime { 100 } }
+main :: () -> i64 {
+    f := (x: i64) -> i64 { (comptime { 40 + 2 }) + (comptime { 7 * 2 }) + x };
+    g := (x: i64) -> i64 { x * (comptime { 3 }) + idg(i64, x) + i64.(idg(u8, 3)) };
+    r := apply((y: i64) -> i64 { y + comptime { 1 } }, 5);
+    named() + bound(1) + f(1) + g(2) + r
+}
+''', 186, ['idg<i64>', 'idg<u8>', 'apply', 'named', 'bound', 'main', 'three anonymous lambdas', 'six comptime blocks (two in one lambda) and their value / init_flag data']),
+    ('entities_b', '''twice :: (comptime N: i64, x: i64) -> i64 { h := (y: i64) -> i64 { y + comptime { 2 } }; h(x) * N + h(x + 1) }
+main :: () -> i64 {
+    a := twice(3, 1);
+    b := twice(5, 1);
+    outer := (x: i64) -> i64 {
+        inner := (z: i64) -> i64 { z + (comptime { 10 }) + (comptime { 20 }) };
+        inner(x) + comptime { 30 }
+    };
+    a + b + outer(1)
+}
+''', (3 * 3 + 4) + (3 * 5 + 4) + (1 + 10 + 20 + 30), ['twice<3>', 'twice<5>', 'the lambda inside each instantiation', 'its comptime block', 'nested anonymous lambdas with comptime blocks']),
+]
+
+
+def entity_programs(chk):
+    """the location -> name-parts mapping (create_mangled_for_*), on closed programs: every kind of compiled entity next to
+    its siblings — a collision makes the compiler fail (duplicate / incompatible declaration) or makes two entities share
+    code or data, which changes the program's result. Recorded as closed terms."""
+    import os
+    from lib import replay as replaylib
+    common.build_capy()
+    closed = []
+    for name, src, want, entities in ENTITY_PROGRAMS:
+        wd = common.workdir('C27')
+        open(os.path.join(wd, name + '.capy'), 'w').write(src)
+        rc, out = common.capy_dump(name + '.capy', wd)
+        syms = [l.split()[4] for l in out.splitlines() if l.startswith('; verif-func ') and len(l.split()) > 4]
+        res = common.capy_native(name + '.capy', wd)
+        rec = {'program': name, 'entities': entities, 'built': res['build_rc'] == 0 and res['rc'] is not None, 'exit_status': res['rc'], 'expected_exit_status': want & 0xff,
+               'function_symbols': len(syms), 'distinct_function_symbols': len(set(syms))}
+        closed.append(rec)
+        bad = None
+        if not rec['built']:
+            first = [l for l in (res['build_out'] or out).splitlines() if 'panicked' in l or l.startswith('error') or 'Declaration' in l or 'Definition' in l][:1]
+            bad = 'the program is not built: %s' % (first[0][:200] if first else 'compiler failed')
+        elif len(set(syms)) != len(syms):
+            bad = 'two functions share a symbol: %s' % sorted({x for x in syms if syms.count(x) > 1})
+        elif res['rc'] != want & 0xff:
+            bad = 'the program exits with %r instead of %d (two entities share code or data)' % (res['rc'], want & 0xff)
+        if bad:
+            key = {'kind': 'entity-symbols', 'program': name}
+            what = 'entities of %s (%s) do not all get their own symbol: %s' % (name, '; '.join(entities), bad)
+            path = replaylib.make_native_replay('C27', name, src, None, want & 0xff, res.get('stdout') or '', res['rc'], what, key) if rec['built'] else \
+                replaylib.make_compile_replay('C27', name, src, res['build_out'] or out, what, key)
+            chk.report(key, what, path)
+    chk.cov['closed_terms'] = closed
+
+
 def run(chk, tier, seed):
+    entity_programs(chk)
     ll, so = llcheck.build_harness(CRATE)
     mod = llcheck.load_module(ll)
     rnd = random.Random(seed)
@@ -149,8 +214,9 @@ def run(chk, tier, seed):
     chk.cov['exhaustive'] = True
     chk.cov['explanation'] = 'states = finished paths of harness_mangle; part texts are symbolic, descriptor shapes (kinds of parts) are enumerated'
     chk.bounds.update({'descriptor_shapes': shapes, 'shape_pairs': len(pairs), 'part_text': 'length 1..3 over {a f 1 2 - _}; indices (G/L/Z parts) over digits',
+                       'entity_programs': [p[0] for p in ENTITY_PROGRAMS],
                        'outside_claim': ['FileName::get_components (needs env::current_dir and real paths): `.`->`-` replacement, `.capy` stripping, `src` skipping',
-                                         'the order in which create_mangled_for_file itself assembles parts (the hook mirrors it)', 'texts longer than 3']})
+                                         'the location -> parts mapping beyond the two closed entity programs', 'texts longer than 3']})
     chk.assumptions.extend(['hook codegen::verif_hooks::mangle::mangle_parts pushes to_code() for every part, then add_part for every part, then E',
                             'rustc 1.88 LLVM IR at opt-level 1; llsym validated against native runs'])
 
